@@ -128,6 +128,9 @@ pub fn classify_death(status: &std::process::ExitStatus, tail: &[String]) -> (St
             format!("{} ; {}", l, joined),
         );
     }
+    if tail.iter().any(|l| l.starts_with("WATCHDOG:")) {
+        return ("hang".into(), "run did not finish within the watchdog".into(), joined);
+    }
     if joined.contains("memory allocation of") {
         return ("abort".into(), "memory allocation failed (process abort)".into(), joined);
     }
@@ -193,7 +196,21 @@ pub fn run_profile(a: &RunArgs, profile: &str, exe: &str, replay_dir: &str) -> P
     // (and, for allocation bugs, runs that take seconds each): once this many have been collected
     // the remaining runs add nothing and the batch is cut short.
     let max_viol: usize = std::env::var("VERIF_MAX_VIOLATIONS").ok().and_then(|s| s.parse().ok()).unwrap_or(300);
+    let max_hangs: u64 = std::env::var("VERIF_MAX_HANGS").ok().and_then(|s| s.parse().ok()).unwrap_or(16);
+    let mut hangs = 0u64;
     while active > 0 {
+        // watchdog expiries cost the whole watchdog each: a change that makes loading hang is
+        // decided by the first few of them
+        if hangs >= max_hangs && !truncated {
+            eprintln!("NOTE: {} runs hit the watchdog; remaining runs of this profile are not explored", hangs);
+            truncated = true;
+            for st in ws.iter_mut() {
+                if st.alive {
+                    st.done = true;
+                    let _ = st.child.kill();
+                }
+            }
+        }
         if found.len() + (deaths as usize) >= max_viol && !truncated {
             eprintln!("NOTE: {} violations collected; remaining runs of this profile are not explored", found.len() + deaths as usize);
             truncated = true;
@@ -262,6 +279,9 @@ pub fn run_profile(a: &RunArgs, profile: &str, exe: &str, replay_dir: &str) -> P
                 let counts = !(a.prop == "C05" || a.prop == "C14") || in_use;
                 if kind == "abort" && detail.contains("harness") {
                     harness_errors.push(format!("worker {}: {}", k, detail));
+                }
+                if counts && kind == "hang" {
+                    hangs += 1;
                 }
                 let class_key = format!("{}|{}", kind, msg);
                 let seen_of_class = {
